@@ -15,6 +15,7 @@ from ..gen import mdgen
 
 ID = "C13"
 PROPS_FILE = "Props/C13.v"
+PROPS_EXTRA = ["Props/C13e2e.v"]   # glue: compile oracle instantiated with the parser+compiler model (Proofs/GlueMarkdown.v)
 GEN_DEPS: List[str] = ["GenRegex", "GenBrace", "GenChars"]
 ALLOWED_AXIOMS: List[str] = []
 THEOREMS: Dict[str, str] = {
@@ -38,6 +39,7 @@ THEOREMS: Dict[str, str] = {
     "C13_brace_token_kinds": "full",
     "C13_brace_scale": "full",
     "C13_brace_ex": "example",
+    "C13e2e_compile_ast_length": "full", "C13e2e_compile_src_length": "full", "C13_compile_model_len_ok": "full", "C13_model_compile_per_group": "full", "C13_model_render_spec": "full", "C13_model_recipes_from_source": "full", "C13_model_recipes_page_valid": "full", "C13e2e_hyps": "example", "C13e2e_recipes": "example", "C13e2e_render_ex": "example",
 }
 TRUSTED = [
     "Coq 8.16.1 kernel (coqc, vm_compute for correspondence only)",
